@@ -2,6 +2,7 @@
 // followed by queries against a sorted-set model.
 #include "hcommon.h"
 #include "souffle/RamTypes.h"
+#include "souffle/utility/StreamUtil.h"
 #include "souffle/datastructure/BTree.h"
 
 #include <algorithm>
